@@ -3,6 +3,7 @@
 package impl
 
 import (
+	"math"
 	"reflect"
 	"unsafe"
 
@@ -169,11 +170,11 @@ func lemma_ClearPresentFrame(p presence, num, m uint32) {
 // bytes of dst): it is empty, freshly allocated by this call, or the previous value extended
 // in place - never a slice taken from src.
 //
-//@ props C14
-//@ mode int
-//@ guard-slice-stores
-//@ nopanic
-//@ inline getUnknownBytes mutableUnknownBytes IsValid
+// @ props C14
+// @ mode int
+// @ guard-slice-stores
+// @ nopanic
+// @ inline getUnknownBytes mutableUnknownBytes IsValid
 func contract_MessageInfo_mergePointer(mi *MessageInfo, dst, src pointer, opts mergeOptions) {
 	requires(mi != nil)
 	modifiesAll()
@@ -183,29 +184,29 @@ func contract_MessageInfo_mergePointer(mi *MessageInfo, dst, src pointer, opts m
 // input buffer that lazy decoding keeps under UnmarshalAliasBuffer is the documented exception and
 // is excluded by requiring the flag to be off.
 
-//@ props C14
-//@ mode int
-//@ guard-slice-stores
-//@ nopanic
+// @ props C14
+// @ mode int
+// @ guard-slice-stores
+// @ nopanic
 func contract_mergeBytesSlice(dst, src pointer, f *coderFieldInfo, opts mergeOptions) {
 	requires(dst.p != nil && src.p != nil)
 	modifiesAll()
 }
 
-//@ props C14
-//@ mode int
-//@ guard-slice-stores
-//@ nopanic
+// @ props C14
+// @ mode int
+// @ guard-slice-stores
+// @ nopanic
 func contract_consumeBytesSlice(b []byte, p pointer, wtyp protowire.Type, f *coderFieldInfo, opts unmarshalOptions) (out unmarshalOutput, err error) {
 	requires(p.p != nil)
 	modifiesAll()
 	return
 }
 
-//@ props C14
-//@ mode int
-//@ guard-slice-stores
-//@ nopanic
+// @ props C14
+// @ mode int
+// @ guard-slice-stores
+// @ nopanic
 func contract_MessageInfo_unmarshalPointerEager(mi *MessageInfo, b []byte, p pointer, groupTag protowire.Number, opts unmarshalOptions) (out unmarshalOutput, err error) {
 	requires(mi != nil && p.p != nil)
 	modifiesAll()
@@ -219,12 +220,56 @@ func contract_MessageInfo_unmarshalPointerEager(mi *MessageInfo, b []byte, p poi
 // of them - for a map key coder that can only be the invalid-UTF-8 error - is never dropped:
 // whenever a callee returned a non-nil error, appendMapItem returns a non-nil error.
 //
-//@ props C13
-//@ mode int
-//@ guard-errors
-//@ nopanic
+// @ props C13
+// @ mode int
+// @ guard-errors
+// @ nopanic
 func contract_appendMapItem(b []byte, keyrv, valrv reflect.Value, mapi *mapInfo, f *coderFieldInfo, opts marshalOptions) (r []byte, err error) {
 	requires(mapi != nil && f != nil)
 	modifiesAll()
+	return
+}
+
+// ---------------------------------------------------------------- size cache (C16)
+//
+//@ inline-always impl.offset.IsValid impl.pointer.Apply impl.marshalOptions.UseCachedSize
+
+// init is a no-op once the MessageInfo has been initialised.
+//
+// @ props C16
+// @ mode int
+func contract_MessageInfo_init(mi *MessageInfo) {
+	requires(mi != nil && mi.initDone != 0)
+}
+
+// The cache cell holds size+1 after sizePointerSlow, or 0 when the size does not fit: a value
+// read later under UseCachedSize is therefore the size computed by the last Size call.
+//
+// @ props C16
+// @ mode int
+// @ nopanic
+func contract_MessageInfo_sizePointerSlow(mi *MessageInfo, p pointer, opts marshalOptions) (size int) {
+	requires(mi != nil && p.p != nil)
+	modifiesAll()
+	ensures(imp(mi.sizecacheOffset.IsValid() && size <= math.MaxInt32-1, *p.Apply(mi.sizecacheOffset).Int32() == int32(size+1)))
+	ensures(imp(mi.sizecacheOffset.IsValid() && size > math.MaxInt32-1, *p.Apply(mi.sizecacheOffset).Int32() == 0))
+	return
+}
+
+// sizePointer trusts the cache only when asked to (UseCachedSize) and only when it holds a
+// positive value, in which case the answer is that value minus one; otherwise it recomputes.
+//
+// @ props C16
+// @ mode int
+// @ nopanic
+func contract_MessageInfo_sizePointer(mi *MessageInfo, p pointer, opts marshalOptions) (size int) {
+	requires(mi != nil && mi.initDone != 0)
+	modifiesAll()
+	ensures(imp(p.p == nil, size == 0))
+	ensures(imp(p.p != nil && opts.UseCachedSize() && old(mi.sizecacheOffset.IsValid()) && old(*p.Apply(mi.sizecacheOffset).Int32()) > 0,
+		size == int(old(*p.Apply(mi.sizecacheOffset).Int32())-1)))
+	// a recomputation refreshes the cache
+	ensures(imp(p.p != nil && !(opts.UseCachedSize() && old(mi.sizecacheOffset.IsValid()) && old(*p.Apply(mi.sizecacheOffset).Int32()) > 0) &&
+		mi.sizecacheOffset.IsValid() && size <= math.MaxInt32-1, *p.Apply(mi.sizecacheOffset).Int32() == int32(size+1)))
 	return
 }
